@@ -407,6 +407,30 @@ pub fn c04_native<G: AffineRepr + 'static>(case: &C04Case, seed: u64) -> Vec<(St
         let mut wr = rand_chacha::ChaChaRng::seed_from_u64(seed ^ 0xba7c);
         let ok = batch_verify(&mut wr, insts, &pc, &bp).is_ok();
         out.push(("two altered copies (final scalar a shifted by +d and by -d) are rejected by batch verification".into(), !ok));
+        // longer cancellation patterns over altered copies (second and third differences), the untouched proof in between
+        for (what, offs) in [("(+d, -2d, +d)", vec![1i64, -2, 1]), ("(+d, -3d, +3d, -d)", vec![1, -3, 3, -1]), ("(+d, 0, -2d, 0, +d)", vec![1, 0, -2, 0, 1]), ("(+d, +d, -2d)", vec![1, 1, -2])] {
+            for on_b in [false, true] {
+                let sc = |c: i64| -> G::ScalarField { if c < 0 { -(G::ScalarField::from((-c) as u64) * dd) } else { G::ScalarField::from(c as u64) * dd } };
+                let members: Vec<R1CSProof<G>> = offs.iter().map(|c| R1CSProof::verif_from_parts(pts, scs, InnerProductProof::verif_from_parts(l.to_vec(), r.to_vec(), if on_b { a } else { a + sc(*c) }, if on_b { b + sc(*c) } else { b }))).collect();
+                let forks: Vec<_> = members.iter().map(|_| fork_for_verifier(shape, &shr)).collect();
+                let mut ts: Vec<merlin::Transcript> = members.iter().map(|_| new_verifier_transcript(shape)).collect();
+                let mut insts = vec![];
+                for (i, vt) in ts.iter_mut().enumerate() {
+                    insts.push((build_verifier(shape, &forks[i], vt), &members[i]));
+                }
+                let mut wr = rand_chacha::ChaChaRng::seed_from_u64(seed ^ 0xba7e);
+                let ok = batch_verify(&mut wr, insts, &pc, &bp).is_ok();
+                out.push((format!("copies with final scalar {} shifted by {} are rejected by batch verification", if on_b { "b" } else { "a" }, what), !ok));
+            }
+        }
+        // an altered object is still rejected after the untouched proof has been accepted several times (no verdict
+        // may be remembered across calls)
+        {
+            let _ = (verify(&proof), verify(&proof));
+            let t = R1CSProof::verif_from_parts(pts, scs, InnerProductProof::verif_from_parts(l.to_vec(), r.to_vec(), a + dd, b));
+            let t2 = R1CSProof::verif_from_parts(pts, scs, InnerProductProof::verif_from_parts(l.to_vec(), r.to_vec(), a, b - dd));
+            out.push(("final scalars altered after the untouched proof was accepted repeatedly: rejected".into(), !verify(&t) && !verify(&t2)));
+        }
     }
     // the two blinding scalars sit on the same base with combined scalar -(e_blinding + r t_x_blinding):
     // (t_x_blinding - d, e_blinding + r d) with the honest run's r -- accepted only if r does not depend on them
